@@ -84,15 +84,16 @@ Truecase::Truecase(const char *file) {
   util::StringPiece word;
   std::string lower;
   for (util::FilePiece f(file); f.ReadWordSameLine(word); f.ReadLine()) {
-    const TableEntry &top = Insert(word);
+    // Keep the pointer, not a reference to the entry: InsertFollow can grow and move the table.
+    const char *const best = Insert(word).best;
     util::ToLower(word, lower);
     if (word != lower) {
-      InsertFollow(lower, top.best, false);
+      InsertFollow(lower, best, false);
     }
     // Discard every other token (these are statistics)
     while (f.ReadWordSameLine(word) && f.ReadWordSameLine(word)) {
       // These secondary casings reference the same best casing.
-      InsertFollow(word, top.best, true);
+      InsertFollow(word, best, true);
     }
   }
 }
